@@ -229,6 +229,12 @@ std::string run(const std::vector<std::string> & tok)
             catch (...) { ret = "thr:other:unknown"; }
             alarm(0);
             { peer_scope ps; srv.core.peer.finish(); srv.core.peer.close_listener(); }
+            {
+                // a group that ends with the server dropping / resetting the control connection: let that happen before
+                // the next call starts (otherwise the outcome of the next call's first write is a race)
+                bool drops; { std::lock_guard<std::mutex> l(srv.mu); drops = srv.core.last_group.close_after || srv.core.last_group.garbage; }
+                if (drops) { for (int i = 0; i < 1000 && srv.open_conns > 0; i++) usleep(1000); usleep(1000); }
+            }
             for (const std::string & e : take_log()) emit(e);
             emit(ret);
             if (have_sink) emit("sink:" + std::to_string(sink.bytes.size()) + ":" + std::to_string(fnv(sink.bytes)) + ":" + std::to_string(sink.flushes));
